@@ -3,7 +3,7 @@
 // abstraction_cas and the per-slot uSWSR_Ptr_Buffer push/pop).  The yield points are put in by
 // function-like macros defined in THIS translation unit after the primitives' headers and before
 // MPMCqueues.hpp; fix8 itself is untouched.  The "threads" of a scheduled case are coroutines
-// (ucontext, one stack each) resumed by the scheduler: one schedule character = one shared action
+// (one stack each, switched by a few lines of assembly) resumed by the scheduler: one schedule character = one shared action
 // of that thread (fast and independent of the machine's load); the free-running mode uses real
 // threads.
 //
@@ -25,15 +25,48 @@
 #include "hcommon.hpp"
 #include <thread>
 #include <atomic>
-#include <ucontext.h>
+#include <utility>
 #if defined(__SANITIZE_ADDRESS__)
 #include <sanitizer/common_interface_defs.h>
+#include <sanitizer/asan_interface.h>
 #define FIBER_START(save, bottom, size) __sanitizer_start_switch_fiber(save, bottom, size)
 #define FIBER_FINISH(save, bottom, size) __sanitizer_finish_switch_fiber(save, bottom, size)
+#define STACK_UNPOISON(p, n) ASAN_UNPOISON_MEMORY_REGION(p, n)
 #else
 #define FIBER_START(save, bottom, size) ((void)0)
 #define FIBER_FINISH(save, bottom, size) ((void)0)
+#define STACK_UNPOISON(p, n) ((void)0)
 #endif
+#if !defined(__x86_64__)
+#error "the coroutine switch below is x86-64 System V only"
+#endif
+
+// minimal coroutine switch (callee-saved registers + stack pointer; no system call, unlike
+// swapcontext which saves the signal mask): save the current context on its stack, store the
+// stack pointer in *save_sp, continue on new_sp
+extern "C" void verif_swap(void **save_sp, void *new_sp);
+asm(R"(
+	.text
+	.globl verif_swap
+	.type verif_swap,@function
+verif_swap:
+	pushq %rbp
+	pushq %rbx
+	pushq %r12
+	pushq %r13
+	pushq %r14
+	pushq %r15
+	movq %rsp, (%rdi)
+	movq %rsi, %rsp
+	popq %r15
+	popq %r14
+	popq %r13
+	popq %r12
+	popq %rbx
+	popq %rbp
+	ret
+	.size verif_swap,.-verif_swap
+)");
 #include <chrono>
 #include <memory>
 #include <sched.h>
@@ -49,6 +82,10 @@
 namespace ff {		// MPMCqueues.hpp includes this header inside namespace ff as well
 #include <fix8/ff/mpmc/asm/atomic.h>
 }
+
+// every case allocates and frees a whole queue: with ASan's default 256 MB quarantine each case
+// would run on fresh pages (page faults dominate the run time); 2 MB still covers many cases
+extern "C" const char *__asan_default_options() { return "quarantine_size_mb=2"; }
 
 //-------------------------------------------------------------------------------------------------
 static const int FUEL = 400;			// drain passes (the model uses the same number)
@@ -73,7 +110,8 @@ struct Local
 // one coroutine per model thread
 struct Fiber
 {
-	ucontext_t ctx;
+	void *sp = nullptr;			// saved stack pointer while switched out
+	int id = -1;
 	char *stack = nullptr;			// from g_stacks (allocated once, reused by every case)
 	void *fake = nullptr;			// ASan fake-stack handle while switched out
 	bool finished = false;
@@ -83,7 +121,7 @@ static const size_t STACK_SIZE = 256 * 1024;
 static std::vector<char *> g_stacks;
 static std::vector<std::unique_ptr<Fiber>> g_fib;
 static Fiber *g_cur = nullptr;			// the running coroutine (scheduled mode only)
-static ucontext_t g_main;
+static void *g_main_sp = nullptr;
 static void *g_main_fake = nullptr;
 static const void *g_main_bottom = nullptr;
 static size_t g_main_size = 0;
@@ -105,7 +143,7 @@ static void to_main(bool last)
 {
 	Fiber *me(g_cur);
 	FIBER_START(last ? nullptr : &me->fake, g_main_bottom, g_main_size);
-	swapcontext(&me->ctx, &g_main);
+	verif_swap(&me->sp, g_main_sp);
 	FIBER_FINISH(me->fake, &g_main_bottom, &g_main_size);
 }
 
@@ -255,9 +293,10 @@ struct ValClient : Client
 struct Job { Client *cl; const Prog *prog; };
 static std::vector<Job> g_job;
 
-static void fiber_main(int id)
+static void fiber_main()
 {
 	FIBER_FINISH(g_cur->fake, &g_main_bottom, &g_main_size);
+	const int id(g_cur->id);
 	tl = Local();
 	tl.id = id;
 	try
@@ -294,7 +333,7 @@ static void give(int t)
 	if (f->finished) return;
 	g_cur = f;
 	FIBER_START(&g_main_fake, f->stack, STACK_SIZE);
-	swapcontext(&g_main, &f->ctx);
+	verif_swap(&g_main_sp, f->sp);
 	FIBER_FINISH(g_main_fake, nullptr, nullptr);
 	g_cur = nullptr;
 }
@@ -335,11 +374,15 @@ static std::string run_sched(Client *cl, std::vector<Prog> progs, const std::str
 		while (g_stacks.size() <= static_cast<size_t>(t))
 			g_stacks.push_back(static_cast<char *>(malloc(STACK_SIZE)));
 		f->stack = g_stacks[t];
-		getcontext(&f->ctx);
-		f->ctx.uc_stack.ss_sp = f->stack;
-		f->ctx.uc_stack.ss_size = STACK_SIZE;
-		f->ctx.uc_link = nullptr;
-		makecontext(&f->ctx, reinterpret_cast<void (*)()>(fiber_main), 1, t);
+		f->id = t;
+		STACK_UNPOISON(f->stack, STACK_SIZE);	// frames abandoned by the previous user of this stack
+		// initial frame: six zeroed callee-saved registers, the entry point as return address of
+		// verif_swap, and a null return address so that fiber_main starts with a call-aligned stack
+		void **top(reinterpret_cast<void **>(f->stack + STACK_SIZE));	// malloc'ed: 16-byte aligned
+		*--top = nullptr;
+		*--top = reinterpret_cast<void *>(&fiber_main);
+		for (int r(0); r < 6; ++r) *--top = nullptr;
+		f->sp = top;
 		g_fib.push_back(std::move(f));
 	}
 	for (int t(0); t <= n; ++t)		// priming: run to the first yield point (no shared action)
